@@ -300,12 +300,14 @@ def solve_one(job):
                 rr, model = "unknown", ""
             if rr == "sat":
                 return key, "sat", "z3-smallscope", time.time() - t0, model
-            if rr == "sat-candidate":
-                return key, "sat-candidate", "z3-smallscope(approx)", time.time() - t0, model
+            cand = model if rr == "sat-candidate" else None
             s = z3.Solver()
             s.set("timeout", Z3_TIMEOUT_MS)
             s.from_string(smt2)
             r = s.check()
+            if r == z3.unknown and cand is not None:
+                # only an approximate counterexample is available: a candidate, to be confirmed on the real code
+                return key, "sat-candidate", "z3-smallscope(approx)", time.time() - t0, cand
     except z3.Z3Exception as e:  # pragma: no cover
         return key, "error", "z3", time.time() - t0, str(e)
     if r == z3.unsat:
